@@ -34,6 +34,7 @@ const (
 
 type cmafIngesterMgr struct {
 	nr        atomic.Uint64
+	mu        sync.RWMutex // protects ingesters, cancels and state
 	ingesters map[uint64]*cmafIngester
 	state     ingesterState
 	s         *Server
@@ -71,10 +72,32 @@ func NewCmafIngesterMgr(s *Server) *cmafIngesterMgr {
 }
 
 func (cm *cmafIngesterMgr) Start() {
+	cm.mu.Lock()
+	defer cm.mu.Unlock()
 	cm.state = ingesterStateRunning
 }
 
+// getIngester returns the ingester with number nr, if any.
+func (cm *cmafIngesterMgr) getIngester(nr uint64) (*cmafIngester, bool) {
+	cm.mu.RLock()
+	defer cm.mu.RUnlock()
+	c, ok := cm.ingesters[nr]
+	return c, ok
+}
+
+// cancel cancels the context of ingester nr, if it has been started.
+func (cm *cmafIngesterMgr) cancel(nr uint64) {
+	cm.mu.RLock()
+	cancel := cm.cancels[nr]
+	cm.mu.RUnlock()
+	if cancel != nil {
+		cancel()
+	}
+}
+
 func (cm *cmafIngesterMgr) Close() {
+	cm.mu.RLock()
+	defer cm.mu.RUnlock()
 	for i, cancel := range cm.cancels {
 		if cm.ingesters[i].state == ingesterStateRunning {
 			cancel()
@@ -83,7 +106,10 @@ func (cm *cmafIngesterMgr) Close() {
 }
 
 func (cm *cmafIngesterMgr) NewCmafIngester(req CmafIngesterSetup) (nr uint64, err error) {
-	if cm.state != ingesterStateRunning {
+	cm.mu.RLock()
+	running := cm.state == ingesterStateRunning
+	cm.mu.RUnlock()
+	if !running {
 		return 0, fmt.Errorf("CMAF ingester manager not running")
 	}
 	for { // Get unique atomic number
@@ -183,12 +209,16 @@ func (cm *cmafIngesterMgr) NewCmafIngester(req CmafIngesterSetup) (nr uint64, er
 	if c.dur != nil {
 		c.nrSegsToSend = m.Ptr(*c.dur * 1000 / asset.SegmentDurMS)
 	}
+	cm.mu.Lock()
 	cm.ingesters[nr] = &c
+	cm.mu.Unlock()
 
 	return nr, nil
 }
 
 func (cm *cmafIngesterMgr) startIngester(nr uint64) {
+	cm.mu.Lock()
+	defer cm.mu.Unlock()
 	c, ok := cm.ingesters[nr]
 	if !ok {
 		return
